@@ -113,9 +113,21 @@ Definition c16_ok (q : request) (o : xobs) : bool :=
   && breaker_events_match (q_blsn q) None evs
   && verdicts_ok q o.
 
-(* ---- C02: a retry policy that is the whole stack runs the function at most maxRetries+1 times,
-        and ExceededError wraps the last outcome *)
+(* ---- C02: in any stack, a retry policy with a bound starts at most maxRetries retries within one execution -- however often an
+        enclosing policy re-enters it, and whatever other executions go through the same policy object meanwhile;
+        a retry policy that is the whole stack runs the function at most maxRetries+1 times, and ExceededError wraps the
+        last outcome *)
+Definition retries_bounded (q : request) (o : xobs) : bool :=
+  forallb (fun ip => match snd ip with
+                     | PRetry cfg =>
+                         if 0 <=? r_max_retries cfg
+                         then Z.of_nat (length (filter (fun e => kind_is KRetry e && Nat.eqb (e_pos e) (fst ip)) (x_events o))) <=? r_max_retries cfg
+                         else true
+                     | _ => true
+                     end) (combine (seq 0 (length (q_stack q))) (q_stack q)).
+
 Definition c02_ok (q : request) (o : xobs) : bool :=
+  retries_bounded q o &&
   match q_stack q with
   | [PRetry cfg] =>
       let n := count_kind KFnStart (x_events o) in
@@ -171,20 +183,25 @@ Definition c11_nokey_ok (q : request) (o : xobs) : bool :=
 
 Definition c11_ok (q : request) (o : xobs) : bool := c11_hits_ok (x_events o) && c11_store_ok q o && c11_nokey_ok q o.
 
-(* ---- C10: the fallback is applied only right after this fallback classified the inner result a failure *)
-Fixpoint c10_fb_ok (prev : option event) (l : list event) : bool :=
+(* ---- C10: the fallback is applied only after this fallback classified the inner result a failure, with nothing said by this
+        layer or by an enclosing one in between (a slow failure listener or fallback function leaves room for stragglers of
+        the layers below: hedged attempts that lost and are still finishing) *)
+Fixpoint c10_fb_ok (before : list event (* latest first *)) (l : list event) : bool :=
   match l with
   | [] => true
   | e :: l' =>
-      (if kind_is KFallbackExecuted e then
-         match prev with Some p => kind_is KPolFailure p && Nat.eqb (e_pos p) (e_pos e) | None => false end
-       else true) && c10_fb_ok (Some e) l'
+      (if kind_is KFallbackExecuted e && (e_aux e =? 0) then
+         match find (fun p => Nat.leb (e_pos p) (e_pos e) && negb (kind_is KFallbackExecuted p && (e_aux p =? 1))) before with
+         | Some p => kind_is KPolFailure p && Nat.eqb (e_pos p) (e_pos e)
+         | None => false
+         end
+       else true) && c10_fb_ok (e :: before) l'
   end.
 (* the fallback function is never applied to an execution that is already cancelled: the harness' fallback functions log an
    entry with aux = 1 when they find their execution cancelled on entry (the listener's own entries carry 0) *)
 Definition fb_not_on_cancelled (l : list event) : bool :=
   forallb (fun e => negb (kind_is KFallbackExecuted e) || (e_aux e =? 0)) l.
-Definition c10_ok (q : request) (o : xobs) : bool := c10_fb_ok None (x_events o) && fb_not_on_cancelled (x_events o).
+Definition c10_ok (q : request) (o : xobs) : bool := c10_fb_ok [] (x_events o) && fb_not_on_cancelled (x_events o).
 
 (* ---- C01: admission — the function runs only between the admission of every enclosing breaker,
         limiter, bulkhead and cache layer: a rejection event (RateExceeded, Full, CacheHit) is never
@@ -245,6 +262,15 @@ Definition cause_named (src : err) (out : outcome) : bool :=
   | None => true
   end.
 
+(* user code other than the function that takes time without watching for the cancellation (a slow failure listener, a slow
+   fallback function): the execution is not "cooperating" *)
+Definition slow_user_code (stack : list policy) : bool :=
+  existsb (fun p => match p with
+                    | PRetry cfg => 0 <? r_lsn_dur cfg
+                    | PFallback cfg => (0 <? fb_lsn_dur cfg) || (0 <? fb_dur cfg)
+                    | _ => false
+                    end) stack.
+
 Definition c08_ok (q : request) (o : xobs) : bool :=
   match q_ext q with
   | Some (dt, src) =>
@@ -261,7 +287,8 @@ Definition c08_ok (q : request) (o : xobs) : bool :=
             | [] => x_end o <=? tc
             | e :: _ => x_end o <=? Z.max tc (e_time e)
             end
-            || negb (forallb (fun s => match fs_coop s with Some _ => true | None => false end) (q_script q) && q_withexec q))
+            || negb (forallb (fun s => match fs_coop s with Some _ => true | None => false end) (q_script q) && q_withexec q)
+            || slow_user_code (q_stack q))
   | None => true
   end.
 
